@@ -175,12 +175,24 @@ def unescape_rust_debug(s):
     return "".join(out)
 
 
-def text_of_syntax_tree(tree):
-    """reconstruct the document text from the `glas/syntaxTree` answer"""
+def text_of_syntax_tree(tree, expect=None):
+    """reconstruct the document text from the `glas/syntaxTree` answer.  rowan's Debug output abbreviates the text of a token of
+    25 bytes or more (`"// a long com ..."`): its range is still exact.  With `expect` (the text the editor holds) such a token is
+    taken from `expect` when its range lies inside it and the printed beginning agrees; without it, or when they disagree, the
+    abbreviated text is kept (and the comparison with the editor's text fails, as it should)"""
     import re
     parts = []
+    eb = expect.encode() if isinstance(expect, str) else None
     for line in tree.split("\n"):
         m = re.match(r'\s*[A-Z_0-9]+@(\d+)\.\.(\d+) "(.*)"$', line)
         if m:
-            parts.append(unescape_rust_debug(m.group(3)))
+            a, b = int(m.group(1)), int(m.group(2))
+            t = unescape_rust_debug(m.group(3))
+            tb = t.encode()
+            if b - a >= 25 and t.endswith(" ...") and eb is not None and b <= len(eb) and eb[a:a + len(tb) - 4] == tb[:-4]:
+                try:
+                    t = eb[a:b].decode()
+                except UnicodeDecodeError:
+                    pass
+            parts.append(t)
     return "".join(parts)
